@@ -6,7 +6,8 @@ From V Require Import Base.Util Model.Perm.
 (* what filterDefinition reads from the source *ast.Schema *)
 Record vfield := { vf_name : string; vf_type : string (* f.Type.Name() *); vf_args : list string (* a.Type.Name() of each argument *) }.
 Record vtype := { vt_name : string; vt_abstract : bool; vt_fields : list vfield; vt_possible : list string (* Schema.PossibleTypes *) }.
-Record vsrc := { v_types : list vtype; v_query : option string; v_mutation : option string; v_subscription : option string }.
+Record vsrc := { v_types : list vtype; v_query : option string; v_mutation : option string; v_subscription : option string;
+                 v_dirargs : list string (* type names of the arguments of the directive definitions *) }.
 Definition vfind (S : vsrc) (n : string) : option vtype := find (fun t => String.eqb (vt_name t) n) (v_types S).
 Definition all_fields (t : vtype) : list string := map vf_name (vt_fields t).
 
@@ -98,7 +99,11 @@ Definition filter_schema (fuel : nat) (S : vsrc) (p : operm) : tmap :=
     match fs with Some l => set_key key l t | None => t end in
   let t := step [] (v_query S) "Query" (p_query p) in
   let t := step t (v_mutation S) "Mutation" (p_mutation p) in
-  step t (v_subscription S) "Subscription" (p_subscription p).
+  let t := step t (v_subscription S) "Subscription" (p_subscription p) in
+  (* directive definitions are shared with the source: the types of their arguments stay visible *)
+  fold_left (fun t n => match vfind S n with
+                        | Some ty => if has_key n t then t else t ++ [(n, all_fields ty)]
+                        | None => t end) (v_dirargs S) t.
 
 Definition view_visible (view : tmap) (tn f : string) : bool :=
   match lookup tn view with Some fs => mem f fs | None => false end.
@@ -115,6 +120,7 @@ Inductive Reach (S : vsrc) (p : operm) : string -> af -> Prop :=
  | R_query : forall n, v_query S = Some n -> Reach S p n (p_query p)
  | R_mutation : forall n, v_mutation S = Some n -> Reach S p n (p_mutation p)
  | R_subscription : forall n, v_subscription S = Some n -> Reach S p n (p_subscription p)
+ | R_dirarg : forall n, In n (v_dirargs S) -> Reach S p n (AF true [])   (* directive definitions are public *)
  | R_field_all : forall tn a t f, Reach S p tn a -> af_all a = true -> vfind S tn = Some t -> In f (vt_fields t) ->
                  Reach S p (vf_type f) (AF true [])
  | R_field : forall tn a t f sub, Reach S p tn a -> af_all a = false -> vfind S tn = Some t -> In f (vt_fields t) ->
@@ -156,7 +162,8 @@ Fixpoint reach_dfs (wide : bool) (fuel : nat) (S : vsrc) (tn : string) (a : af) 
   end.
 Definition reach_all (wide : bool) (fuel : nat) (S : vsrc) (p : operm) : seen_t :=
   let go := fun (r : option string) (a : af) (s : seen_t) => match r with Some n => reach_dfs wide fuel S n a s | None => s end in
-  go (v_subscription S) (p_subscription p) (go (v_mutation S) (p_mutation p) (go (v_query S) (p_query p) [])).
+  fold_left (fun s n => reach_dfs wide fuel S n (AF true []) s) (v_dirargs S)
+    (go (v_subscription S) (p_subscription p) (go (v_mutation S) (p_mutation p) (go (v_query S) (p_query p) []))).
 Definition selectable (reach : seen_t) (S : vsrc) (tn f : string) : bool :=
   match vfind S tn with
   | Some t => mem f (all_fields t) && existsb (fun x => String.eqb (fst x) tn && node_allows (snd x) f) reach
